@@ -1,4 +1,5 @@
 import MoneroModel.Proofs.BlockSound
+import MoneroModel.Gen.Codec
 open Monero
 /-! # C01 — parsed consensus data re-serialises to exactly the bytes that were parsed
 
@@ -53,6 +54,18 @@ theorem C01_sound_rct_prunable (ty i o m : Nat) (b : Bytes) (x : Option Prunable
 theorem C01_sound_transaction : Sound encTx tx := sound_tx
 theorem C01_sound_header : Sound encHeader header := sound_header
 theorem C01_sound_block : Sound encBlock block := sound_block
+
+/-- the tag tables of the CURRENT SOURCE (regenerated on every run) are mutually inverse: every variant is written with
+exactly the one byte under which it is accepted — the obligation that a one-sided tag edit (a second accepted tag, a changed
+written tag) breaks -/
+theorem C01_tag_tables_inverse :
+    Gen.txInEncode = Gen.txInDecode.map (fun p => (p.2, p.1)) ∧
+    Gen.txOutTargetEncode = Gen.txOutTargetDecode.map (fun p => (p.2, p.1)) ∧
+    Gen.subFieldEncode = Gen.subFieldDecode.map (fun p => (p.2, p.1)) ∧
+    Gen.rctTypeEncode = Gen.rctTypeDecode.map (fun p => (p.2, p.1)) ∧
+    (Gen.txInDecode.map (·.2)).Nodup ∧ (Gen.txOutTargetDecode.map (·.2)).Nodup ∧ (Gen.subFieldDecode.map (·.2)).Nodup ∧
+    (Gen.rctTypeDecode.map (·.2)).Nodup ∧ (Gen.rctTypeDecode.map (·.1)).Nodup ∧
+    Gen.baseEncMatches = Gen.baseDecMatches ∧ Gen.baseEncEqs = Gen.baseDecEqs ∧ Gen.prunEncMatches = Gen.prunDecMatches := by decide
 
 /-- the statement of the property: `serialise(x) = b[0..n]` with `n` the number of bytes consumed -/
 theorem C01_consumed {α} (enc : α → Bytes) (dec : Dec α) (hs : Sound enc dec) (b : Bytes) (x : α) (r : Bytes)
